@@ -234,6 +234,10 @@ func (e *Engine) vrtIntrinsic(fn *ssa.Function, vn string, args []Value, st *Sta
 		e.asserts = append(e.asserts, Assertion{Label: constStr(args[0], "reach label"), Kind: "reach",
 			PC: e.reach(st), Cond: TrueT, Assumes: st.assumes})
 		return nil, true
+	case "CheckNoPanic":
+		e.asserts = append(e.asserts, Assertion{Label: constStr(args[0], "label"), Kind: "nopanic",
+			PC: TrueT, Cond: Not(e.panicC), Assumes: st.assumes})
+		return nil, true
 	case "SameType":
 		return e.typeEq(st, args[0], args[1]), true
 	case "Event":
